@@ -93,7 +93,7 @@ def run(c, prop="C03"):
     if c.replay:
         rp = json.load(open(c.replay))
         _, out = c.harness("c03", [rp["case"]], name="replay")
-        rej = c.validate(out, "TracePersist", max_rejects=1)
+        rej = c.validate(out, "TracePersist", cfg="TracePersist64" if rp["case"].get("nk") == 64 else None, max_rejects=1)
         if rej:
             c.report(prop + ":" + classify(rej[0]), dict(case=rp["case"], unexplained=rej[0]["line"]), explain(rej[0]))
         return
@@ -122,6 +122,21 @@ def run(c, prop="C03"):
                 cases.append(dict(nk=40, hasher=hasher, coarse=False, live=1, ops=ops, seed=rng.getrandbits(30), origin="tlc-simulate " + fam))
                 total += 1
         c.extra["tlc_simulated_histories_replayed"] = total
+
+    gs_cases = []
+    # grow-and-shrink histories over 64 keys: a 32-way node is filled well beyond the conversion thresholds (keys landing in
+    # occupied slots), then emptied again key by key in several orders; every intermediate version is projected and iterated
+    if prop == "C03":
+        for h in ("identity", "low", "table", "mid"):
+            for order in ("asc", "desc", "shuffle"):
+                keys = list(range(1, 65))
+                ops = [dict(op="new", kd="map", a=0, b=0, k=0, k2=0, v=0, fn="", ps=[], ctor="varargs")]
+                for k in keys:
+                    ops.append(dict(op="updated", kd="map", a=len(ops), b=0, k=k, k2=0, v=k % 3 + 1, fn="", ps=[]))
+                rem = list(keys) if order == "asc" else list(reversed(keys)) if order == "desc" else rng.sample(keys, len(keys))
+                for k in rem:
+                    ops.append(dict(op="removed", kd="map", a=len(ops), b=0, k=k, k2=0, v=0, fn="", ps=[]))
+                gs_cases.append(dict(nk=64, hasher=h, coarse=False, live=1, ops=ops, seed=rng.getrandbits(30), origin="grow-shrink " + order))
 
     # ---------------- (C) ----------------
     hashers = ["identity", "low", "const", "high", "table", "mid"]
@@ -180,9 +195,15 @@ def run(c, prop="C03"):
     if not c.cov["samples"]:
         c.cov["samples"].append({k: v for k, v in cases[0].items() if k != "ops"})
 
-    rejected = c.validate(out, "TracePersist", max_rejects=15, timeout=3000)
+    rejected = [(r, "TracePersist") for r in c.validate(out, "TracePersist", max_rejects=15, timeout=3000)]
+    if gs_cases:
+        # the 64-key histories are validated with the key universe 1..64
+        s2, out2 = c.harness("c03", gs_cases, name="growshrink", timeout=3000)
+        c.cov["evaluations"] += s2["ops"]
+        c.extra["grow_shrink_histories"] = s2["traces"]
+        rejected += [(r, "TracePersist64") for r in c.validate(out2, "TracePersist", cfg="TracePersist64", max_rejects=5, timeout=3000)]
     classes = set()
-    for rej in rejected:
+    for rej, cfgname in rejected:
         k = classify(rej)
         c.extra.setdefault("rejected_by_class", {}).setdefault(k, 0)
         c.extra["rejected_by_class"][k] += 1
@@ -191,7 +212,7 @@ def run(c, prop="C03"):
         classes.add(k)
         case = concrete(rej)
         _, o2 = c.harness("c03", [case], name="confirm")
-        again = c.validate(o2, "TracePersist", max_rejects=1)
+        again = c.validate(o2, "TracePersist", cfg=cfgname, max_rejects=1)
         if not again:
             raise vf.Infra("rejected history did not reproduce")
         c.report(prop + ":" + classify(again[0]), dict(case=case, unexplained=again[0]["line"]), explain(again[0]))
